@@ -1,4 +1,65 @@
-(* C02 - placeholder; real theorems follow *)
-From Coq Require Import ZArith Lia.
-Theorem placeholder_C02 : 0 = 0. Proof. reflexivity. Qed.
-Print Assumptions placeholder_C02.
+(* C02 - BIP-340 Schnorr signing and verification are exact.
+   Statements only; proofs in Proofs/SchnorrProofs.v.  Spec: Spec/Bip340.v (transcription of the BIP's
+   pseudo-code).  Model: Model/Schnorr.v - tied to the C code by ./check C02. *)
+From Coq Require Import ZArith List Bool Lia.
+Require Import Spec.Params Spec.Field Spec.Curve Spec.Bytes Spec.Sha256 Spec.Bip340.
+Require Import Model.Base Model.Keys Model.Schnorr.
+Require Import Proofs.BytesLemmas Proofs.MathFacts Proofs.SchnorrProofs Proofs.SecpConsts Proofs.Toy.
+Import ListNotations.
+Local Open Scope Z_scope.
+Notation S := secp256k1.
+Lemma secp_n_le_2_256 : cn S <= 2 ^ 256. Proof. vm_compute. discriminate. Qed.
+Lemma secp_p_le_2_256 : cp S <= 2 ^ 256. Proof. vm_compute. discriminate. Qed.
+
+(* [MF] For every message of every length and every 64-byte string, verification on the object of an
+   x-only key equals BIP-340 Verify on the key's encoding (R = s*G - e*P, even y, x(R) = r, r < p, s < n). *)
+Theorem verify_eq_bip340 :
+  MathFacts S ->
+  forall x Q sig64 msg, lift_x S x false = Some Q -> x <> 0 ->
+    bytes_okP sig64 -> length sig64 = 64%nat ->
+    schnorrsig_verify S sig64 msg (pk_obj (Some Q)) = [AInt (b2z (bip340_verify S (be_enc 32 x) msg sig64))].
+Proof. intros MF. exact (verify_eq_bip340 S MF secp_p_le_2_256). Qed.
+Print Assumptions verify_eq_bip340.
+
+(* Non-canonical encodings are rejected outright (no premise). *)
+Theorem verify_rejects_r_ge_p :
+  forall sig64 msg xobj, cp S <= be_val (firstn 32 sig64) -> schnorrsig_verify S sig64 msg xobj = [AInt 0].
+Proof. exact (verify_rejects_r_ge_p S). Qed.
+Print Assumptions verify_rejects_r_ge_p.
+Theorem verify_rejects_s_ge_n :
+  forall sig64 msg xobj, cn S <= be_val (skipn 32 sig64) -> schnorrsig_verify S sig64 msg xobj = [AInt 0].
+Proof. exact (verify_rejects_s_ge_n S). Qed.
+Print Assumptions verify_rejects_s_ge_n.
+
+(* Only 0 or 1, and no callback, for any loadable key object. *)
+Theorem verify_outcomes :
+  forall sig64 msg xobj Q, pk_load xobj = Some Q ->
+    schnorrsig_verify S sig64 msg xobj = [AInt 0] \/ schnorrsig_verify S sig64 msg xobj = [AInt 1].
+Proof. exact (verify_outcomes S). Qed.
+Print Assumptions verify_outcomes.
+
+(* Absent auxiliary randomness behaves as 32 zero bytes. *)
+Theorem aux_none_eq_zero_aux :
+  forall msg32 kp, schnorrsig_sign32 S msg32 kp None = schnorrsig_sign32 S msg32 kp (Some (zeros 32)).
+Proof. exact (aux_none_eq_zero_aux S). Qed.
+Print Assumptions aux_none_eq_zero_aux.
+
+(* Signing with a consistent keypair reproduces BIP-340 default signing byte for byte, for every key,
+   message (any length) and auxiliary randomness (absent = 32 zero bytes).  Only premise: G has order n. *)
+Theorem sign_eq_bip340_default :
+  (forall k, 0 < k < cn S -> pmul S k (G S) <> None) ->
+  forall d0 xP yP msg aux,
+    0 < d0 < cn S -> pmul S d0 (G S) = Some (xP, yP) -> 0 < xP < cp S -> 0 <= yP < cp S ->
+    schnorrsig_sign_internal S msg (keypair_obj d0 (Some (xP, yP))) 0 aux =
+      match bip340_sign S (be_enc 32 d0) msg (match aux with Some a => a | None => zeros 32 end) with
+      | Some sig => [AInt 1; ABytes sig]
+      | None => [AInt 0; ABytes (zeros 64)]
+      end.
+Proof. intros HG. exact (sign_eq_bip340_default S secp_n_pos secp_n_le_2_256 secp_p_le_2_256 HG). Qed.
+Print Assumptions sign_eq_bip340_default.
+
+(* non-vacuity of the [MF] theorem: it instantiates on the toy curve where MathFacts is proved *)
+Example verify_eq_bip340_toy :
+  forall x Q sig64 msg, lift_x toy x false = Some Q -> x <> 0 -> bytes_okP sig64 -> length sig64 = 64%nat ->
+    schnorrsig_verify toy sig64 msg (pk_obj (Some Q)) = [AInt (b2z (bip340_verify toy (be_enc 32 x) msg sig64))].
+Proof. apply (Proofs.SchnorrProofs.verify_eq_bip340 toy toy_MathFacts). vm_compute. discriminate. Qed.
